@@ -203,7 +203,7 @@ func (b Branch) GetLocatorHashes(splits Splits, delta, max int) HeightHashes {
 			for i, split := range splits {
 				if !splitAdded[i] && height < split.Height && previousHeight >= split.Height {
 					result = append(result, &HeightHash{
-						Height: split.Height,
+						Height: split.Height - 1,
 						Hash:   split.BeforeHash,
 					})
 					splitAdded[i] = true
@@ -236,7 +236,7 @@ func (b Branch) GetLocatorHashes(splits Splits, delta, max int) HeightHashes {
 	for i, split := range splits {
 		if !splitAdded[i] && height > split.Height {
 			result = append(result, &HeightHash{
-				Height: split.Height,
+				Height: split.Height - 1,
 				Hash:   split.BeforeHash,
 			})
 			splitAdded[i] = true
